@@ -18,6 +18,7 @@
   Not modelled: data-race freedom of the flag (C++ memory model).
 -/
 import Alpaqa.Proofs.ZerofprInv
+import Alpaqa.Proofs.ZerofprExample
 
 namespace Alpaqa.Props.C19_Zerofpr
 open Alpaqa Alpaqa.Zerofpr Alpaqa.Gen
@@ -157,5 +158,21 @@ example (k : Nat) : Mono (fun t => decide (t ≥ k)) := by
   intro t t' h1 h2; simp only [decide_eq_true_eq] at *; omega
 
 example : Mono (fun _ => false) := by intro t t' _ h; exact h
+
+section examples
+open Alpaqa.Zerofpr.Example
+
+example : Mono stopAt9 := by
+  intro t t' h1 h2; unfold stopAt9 at *; simp only [decide_eq_true_eq] at *; omega
+
+/-- the concrete solve of `Proofs/ZerofprExample.lean`, stop request during event 9 (inside the
+    line search of iteration 0): candidate discarded, exit at the next head with `Interrupted`,
+    zero iterations, a single (final) callback, 12 events in total instead of 30. -/
+example : (exRun stopAt9).stats.status = SolverStatus.Interrupted ∧
+    (exRun stopAt9).stats.iterations = 0 ∧ (exRun stopAt9).callbacks.length = 1 ∧
+    (exRun stopAt9).ticks = 12 ∧ (exRun (fun _ => false)).ticks = 30 := by
+  decide +kernel
+
+end examples
 
 end Alpaqa.Props.C19_Zerofpr
